@@ -11,7 +11,8 @@ SPEC = {
     ],
     # thorough tier: coverage-guided campaigns over the same generators + oracles (rapid.MakeFuzz)
     "fuzz": [{"name": "FuzzModel", "seconds": 60}, {"name": "FuzzNoEntries", "seconds": 20}, {"name": "FuzzLongLines", "seconds": 20}],
-    "rule": ("rapid-generated ammo files (internal/ammogen, all layout knobs; tags drawn from a small pool so they repeat; untagged "
+    "rule": ("every delivered request is, once observed, treated as the built-in gun treats it before the ammo is released (req.URL pointed at a target, empty Host filled); "
+             "rapid-generated ammo files (internal/ammogen, all layout knobs; tags drawn from a small pool so they repeat; untagged "
              "entries) in the four HTTP formats x limit 0..12 x passes 0..3 x chosencases (none / the key given with an explicitly empty list, "
              "`chosencases: []`, decoded through the config path like every other setting / a subset of the pool incl. the empty "
              "tag / a tag matching nothing) x the documented header/date ammo middleware (absent in two cases of three; default or custom "
